@@ -707,7 +707,7 @@ fn candidate(prop: &str, r: &mut StdRng) -> (usize, Vec<Value>) {
                 (n, ops)
             }
         }
-        "C14" if r.gen_range(0..8) == 0 => {
+        "C14" if r.gen_range(0..40) == 0 => {
             // a long cube list most of whose members share a literal (absorption around list position 64, 128)
             let n = r.gen_range(9..=12usize);
             let base = if r.gen() { r.gen_range(56..72) } else { r.gen_range(120..136) };
